@@ -1194,10 +1194,15 @@ func c04ParseFile(c *Ctx) {
 
 // pathSignature: a path as text, with memory epochs erased and function-local variables named by their order of appearance, so that
 // two functions with the same body (up to the names and identities of their locals) give the same signatures.
-func (c *Ctx) pathSignature(p *Path, sub func(Term) (Term, bool), first types.Object) string {
+func (c *Ctx) pathSignature(p *Path, sub func(Term) (Term, bool), first types.Object, more ...types.Object) string {
 	names := map[types.Object]string{}
 	if first != nil {
 		names[first] = "L0"
+	}
+	for i, o := range more {
+		if o != nil {
+			names[o] = "P" + itoa(i)
+		}
 	}
 	next := 1
 	canon := func(t Term) Term {
@@ -1217,6 +1222,10 @@ func (c *Ctx) pathSignature(p *Path, sub func(Term) (Term, bool), first types.Ob
 			case TSel:
 				x.Epoch = 0
 				return x
+			case TProj:
+				if ix, isIx := x.X.(TIndex); isIx && x.K == 0 {
+					return ix // v, ok := m[k]: v is m[k]
+				}
 			case TIndex:
 				x.Epoch = 0
 				return x
